@@ -22,7 +22,7 @@ from typing import (
 import certifi
 import service_identity
 from cryptography import x509
-from cryptography.exceptions import InvalidSignature
+from cryptography.exceptions import InvalidSignature, UnsupportedAlgorithm
 from cryptography.hazmat.backends import default_backend
 from cryptography.hazmat.primitives import hashes, hmac, serialization
 from cryptography.hazmat.primitives.asymmetric import (
@@ -1522,6 +1522,14 @@ class Context:
             )
         except InvalidSignature:
             raise AlertDecryptError
+        except (AttributeError, TypeError, ValueError, UnsupportedAlgorithm):
+            # The peer chose a signature algorithm which does not match the type
+            # of its certificate's public key (the parameters do not fit the
+            # key's `verify` method, or the key cannot sign at all), or the
+            # certificate carries a public key which cannot be used.
+            raise AlertIllegalParameter(
+                "CertificateVerify algorithm does not match the certificate's key"
+            )
 
     def _client_send_hello(self, output_buf: Buffer) -> None:
         key_share: list[KeyShareEntry] = []
